@@ -494,7 +494,22 @@ class Gen:
             if vs and r.random() < 0.6:
                 return ['var', r.choice(vs)]
             return ['int', r.randint(-3, 9)]
-        k = r.randrange(9 if self.scope_only else 13)
+        k = r.randrange(9 if self.scope_only else 15)
+        if k in (13, 14) and not self.no_partial:
+            # a partial application is applied partially again, and the first one is still used afterwards
+            self.features.add('partial-reused')
+            fname, qname = 'pp', 'qq'
+            base = self.gen_inline(ftype(['I', 'I', 'I'], 'I'), env, d - 1)
+            a, b, c2 = [self.gen_I(env, 0) for _ in range(3)]
+            holes = r.choice([[['?'], ['?'], c2], [['?'], c2, ['?']], [c2, ['?'], ['?']]])
+            second = r.choice([[a, ['?']], [['?'], a]])
+            use_q = ['call', ['var', qname], [b]]
+            use_p = ['call', ['var', fname], [self.gen_I(env, 0), self.gen_I(env, 0)]]
+            body = ['let', qname, ['call', ['var', fname], second],
+                    r.choice([['add', use_q, use_p], ['add', use_p, use_q], ['seq', use_q, use_p, use_q]])]
+            if body[3][0] == 'seq':
+                body[3] = ['bi', 'sum', body[3]]
+            return ['let', fname, ['call', base, holes], body]
         if k == 0:
             return ['int', r.randint(-3, 9)]
         if k == 1 and vs:
